@@ -294,6 +294,7 @@ class Outcome:
         self.end_off = None
         self.either = []  # kinds of the choice points met
         self.counts = {}
+        self.bad_utf8 = False  # the frame the model stopped at carries invalid UTF-8 in a string option
 
     def count(self, k):
         self.counts[k] = self.counts.get(k, 0) + 1
@@ -402,6 +403,7 @@ def ref_receive(stream, choices=()):
             stop("unchecked", "reserved code class", fend)
             break
         if not csm:
+            out.bad_utf8 = any(n in STRING_OPTS and not valid_utf8(v) for n, v in options)
             stop("abort", "no-csm", fend)
             break
         if any(n in STRING_OPTS and not valid_utf8(v) for n, v in options):
@@ -1075,7 +1077,10 @@ def judge_endpoint(O, ob):
     said = False
     if O.end == "abort":
         if not aborts:
-            v.append((NO_ABORT_KIND.get(O.why, "C15/no-abort"), {"why": O.why, "at_offset": O.end_off, "fatal": ob["fatal"],
+            kind = NO_ABORT_KIND.get(O.why, "C15/no-abort")
+            if O.bad_utf8 and ob["fatal"]:
+                kind = NO_ABORT_KIND["unparsable"]
+            v.append((kind, {"why": O.why, "at_offset": O.end_off, "fatal": ob["fatal"],
                                                                    "closed": ob["closing"], "close_reason": ob["close_reason"]}))
             said = True
         elif ob["close_reason"] != "close":
@@ -1119,16 +1124,17 @@ def judge_endpoint(O, ob):
 
 def judge_branches(stream, ob, extra):
     """Any branch of the reference receiver may match; if none does, the
-    violations of the preferred branch are reported."""
-    first = None
+    violations of the branch with the fewest of them are reported (the
+    preferred branch on a tie)."""
+    best = None
     for O in all_branches(stream):
         v, stray = judge_endpoint(O, ob)
         v += extra(O, stray)
         if not v:
             return O, []
-        if first is None:
-            first = (O, v)
-    return first
+        if best is None or len(v) < len(best[1]):
+            best = (O, v)
+    return best
 
 
 def endpoint_observation(sim, tap, out_stream, tr, out_limit=None):
@@ -1144,7 +1150,8 @@ def endpoint_observation(sim, tap, out_stream, tr, out_limit=None):
         out.append(m)
     return {"tap": [e["m"] for e in tap if not e["closing"]], "tap_late": [e["m"] for e in tap if e["closing"]],
             "out": out, "out_rest": bytes(rest), "out_err": err, "closing": tr.is_closing(), "close_reason": tr.close_reason,
-            "fatal": ("%s: %s" % (type(tr.fatal).__name__, str(tr.fatal)[:80])) if tr.fatal is not None else None,
+            "fatal": ("%s: %s" % (type(tr.fatal).__name__, str(tr.fatal)[:80])) if (tr.fatal is not None and not tr.fatal_late) else None,
+            "fatal_late": tr.fatal is not None and tr.fatal_late,
             "frames": [(a, b, m, e, data[a:a + 5]) for (a, b, m, e) in frames if m is not None]}
 
 
@@ -1240,6 +1247,9 @@ def run_bs(sim, scn, chunk, wid, nworld):
             if m["code"] in (rc.CSM, rc.PONG, rc.ABORT):
                 continue
             if cls in (2, 4, 5):
+                if m["token"] in expected and not seen.get(m["token"]) and msg_key(m) == msg_key(expected[m["token"]]):
+                    seen[m["token"]] = 1
+                    continue
                 if m["token"] in lenient and m["token"] not in expected:
                     continue
                 if m["token"] in stray:
@@ -1273,6 +1283,8 @@ def run_bs(sim, scn, chunk, wid, nworld):
         sim.violation(kind, dict(detail, world=wid, workload="Bs"))
     if ob["tap_late"]:
         sim.anomaly("dispatch-after-close", "%d message(s) handed on after the endpoint closed the connection" % len(ob["tap_late"]))
+    if ob["fatal_late"]:
+        sim.anomaly("exception-after-close", "data_received raised while handling bytes that followed its own close()")
     count_outcome_probes(sim, O)
     len_probes(sim, ob["frames"])
     sim.log("app", "bs-outcome", wid, O.end, O.why, len(ob["tap"]), ob["closing"], ob["close_reason"])
@@ -1286,6 +1298,347 @@ def run_bs(sim, scn, chunk, wid, nworld):
            "pongs": sorted(m["token"].hex() for m in ob["out"] if m["code"] == rc.PONG),
            "handler": ([hashlib.sha256(repr(msg_key(h["m"])).encode()).hexdigest()[:12] for h in handler_log] if O.end == "open" else None)}
     return {"obs": obs, "sn": sn, "kinds": [f["k"] for f in scn["ops"]], "end": O.end}
+
+
+# ------------------------------------------------------------------ workload Bc: real client -> scripted server
+
+
+def bc_request_msg(q):
+    base = [(rc.URI_PATH, b"e"), (rc.URI_QUERY, b"t=%d" % q["tag"])]
+    base += [(int(n), bytes.fromhex(v)) for n, v in q.get("opts", [])]
+    opts, payload = fit_request(base, q.get("len", 0), seed=q.get("seed", 1))
+    return {"code": q["code"], "token": b"", "options": opts, "payload": payload}
+
+
+def tag_of(m):
+    t = parse_query(m["options"]).get("t")
+    try:
+        return int(t)
+    except (TypeError, ValueError):
+        return None
+
+
+def start_request(sim, ctx, m, uri, outcomes, tag):
+    msg = to_aiocoap(m, uri=uri)
+    rec = {"done": 0, "outcome": None}
+    outcomes[tag] = rec
+    req = ctx.request(msg, handle_blockwise=False)
+
+    def done(f):
+        rec["done"] += 1
+        rec["t"] = sim.loop.now
+        if f.cancelled():
+            rec["outcome"] = "cancelled"
+        elif f.exception() is not None:
+            rec["outcome"] = "error"
+            rec["exception"] = f.exception()
+        else:
+            rec["outcome"] = "response"
+            rec["response"] = snapshot(f.result())
+        sim.log("app", "done", tag, rec["outcome"], type(rec.get("exception")).__name__ if rec.get("exception") is not None else
+                (rc.code_str(rec["response"]["code"]) if rec.get("response") else None))
+
+    req.response.add_done_callback(done)
+    sim.log("app", "start", tag)
+
+
+def run_bc(sim, scn, chunk, wid, nworld):
+    import aiocoap
+    from aiocoap import error
+
+    loop = sim.loop
+    sn = SimStreamNet(sim, prefix=wid + ":", client_ip="fd00:%d::2" % nworld)
+    loop.streamnet = sn
+    sn.policy_for = policy_fn(chunk)
+    ip = "fd00:%d::10" % nworld
+    tap = []
+    outcomes = {}
+    steps = scn["ops"]
+    st = {"next": 0, "tokens": [], "marks": []}
+
+    def advance(peer):
+        if peer.transport is None or peer.transport.is_closing():
+            return
+        frames, _ = split_frames(peer.rx)
+        st["tokens"] = [m["token"] for (a, b, m, e) in frames if m is not None and m["code"] >> 5 == 0 and m["code"] != 0]
+        while st["next"] < len(steps) and steps[st["next"]]["after"] <= len(st["tokens"]):
+            step = steps[st["next"]]
+            st["next"] += 1
+            data = b"".join(frame_bytes(f, st["tokens"]) for f in step["frames"])
+            if data:
+                peer.write(data)
+                st["marks"].append((len(peer.tx), len(st["tokens"])))
+
+    def factory(n):
+        listener.server.close()  # one connection only; later attempts are refused
+        return TcpPeer(sim, wid + ":peer", on_data=lambda p, d: advance(p), on_event=lambda p, k, i: advance(p) if k == "made" else None)
+
+    listener = TcpPeerListener(sim, ip, 5683, factory)
+
+    async def setup():
+        await listener.start()
+        cli = await aiocoap.Context.create_client_context(transports=["tcpclient"], loggername="coap")
+        install_tap(cli, tap, sim, closing_of=lambda msg: sn.conns[0].c.is_closing() if sn.conns else False)
+        return cli
+
+    cli = loop.run_until_complete(setup())
+    t0 = loop.now
+    uri = "coap+tcp://[%s]" % ip
+    for q in scn["reqs"]:
+        loop.at(t0 + q["t"], start_request, sim, cli, bc_request_msg(q), uri, outcomes, q["tag"])
+    sim.run()
+    if not sn.conns:
+        raise RuntimeError("client never connected")
+    conn = sn.conns[0]
+    peer = listener.peers[0]
+    stream = bytes(conn.s2c.stream)
+    ob = endpoint_observation(sim, tap, conn.c2s.stream, conn.c)
+    reqs = {q["tag"]: q for q in scn["reqs"]}
+    token_of = {}
+    for m in ob["out"]:
+        if m["code"] >> 5 == 0 and m["code"] != 0 and tag_of(m) in reqs and tag_of(m) not in token_of:
+            token_of[tag_of(m)] = m["token"]
+    answered = {}
+
+    def extra(O, stray):
+        v = []
+        seen_tags = set()
+        for m in ob["out"]:
+            if m["code"] in (rc.CSM, rc.PONG, rc.ABORT):
+                continue
+            tag = tag_of(m)
+            if m["code"] >> 5 == 0 and m["code"] != 0 and tag in reqs and tag not in seen_tags:
+                seen_tags.add(tag)
+                want = bc_request_msg(reqs[tag])
+                if msg_key(m, False) != msg_key(want, False):
+                    v.append(("C15/sent-message-differs", {"written": brief(m), "given": brief(want)}))
+            elif not (m["code"] >> 5 in (2, 4, 5) and m["token"] in stray):
+                v.append(("C15/unexpected-output", {"written": brief(m)}))
+        answered.clear()
+        optional_tokens = {d["token"] for d in O.dispatch if d.get("optional")}
+        for tag, tok in token_of.items():
+            for d in O.dispatch:
+                if d["token"] == tok and d["code"] >> 5 in (2, 4, 5) and not d.get("optional"):
+                    answered[tag] = d
+                    break
+        known = None
+        if O.end == "peer_close":
+            n = None
+            for (txoff, ntok) in st["marks"]:
+                if txoff >= O.end_off:
+                    n = ntok
+                    break
+            known = set(st["tokens"][:n]) if n is not None else set()
+        for tag, rec in outcomes.items():
+            tok = token_of.get(tag)
+            if tag in answered:
+                d = answered[tag]
+                if rec["outcome"] != "response":
+                    v.append(("C15/response-not-delivered-to-application", {"tag": tag, "outcome": rec["outcome"],
+                                                                             "exception": repr(rec.get("exception"))[:120], "sent": brief(d)}))
+                elif msg_key(rec["response"], False) != msg_key(d, False):
+                    v.append(("C15/application-response-differs", {"tag": tag, "got": brief(rec["response"]), "sent": brief(d)}))
+                continue
+            if rec["outcome"] == "response" and tok not in optional_tokens:
+                if any(msg_key(rec["response"], False) == msg_key(m, False) for m in ob["tap_late"]):
+                    continue  # handed on after the endpoint had closed the connection: counted as anomaly only
+                v.append(("C15/response-without-source", {"tag": tag, "got": brief(rec["response"])}))
+                continue
+            if known is not None and tok is not None and tok in known:
+                if rec["outcome"] is None:
+                    v.append(("C15/pending-request-not-failed", {"tag": tag, "peer_sent": O.why}))
+                elif rec["outcome"] == "error" and not isinstance(rec["exception"], error.NetworkError):
+                    v.append(("C15/pending-request-wrong-error", {"tag": tag, "exception": repr(rec["exception"])[:160]}))
+                elif rec["outcome"] == "error":
+                    sim.probe("pending_failed")
+        if rec_twice(outcomes):
+            v.append(("C15/request-completed-twice", {}))
+        return v
+
+    O, viols = judge_branches(stream, ob, extra)
+    extra(O, [m["token"] for m in ob["tap"]])  # leave `answered` as computed for the branch that is reported
+    for kind, detail in viols:
+        sim.violation(kind, dict(detail, world=wid, workload="Bc"))
+    if ob["tap_late"]:
+        sim.anomaly("dispatch-after-close", "%d message(s) handed on after the endpoint closed the connection" % len(ob["tap_late"]))
+    if ob["fatal_late"]:
+        sim.anomaly("exception-after-close", "data_received raised while handling bytes that followed its own close()")
+    for tag, rec in outcomes.items():
+        if rec["outcome"] == "error" and not isinstance(rec["exception"], error.Error):
+            sim.anomaly("request-failed-with-foreign-exception", repr(rec["exception"]))
+    count_outcome_probes(sim, O)
+    len_probes(sim, ob["frames"])
+    if len(sn.conns) > 1 or sn.attempts > 1:
+        sim.probe("reconnect")
+    sim.log("app", "bc-outcome", wid, O.end, O.why, len(ob["tap"]), ob["closing"], ob["close_reason"])
+    shutdown_ctx(sim, [cli])
+    peer.close()
+    sim.run()
+    obs = {"aborted": any(m["code"] == rc.ABORT for m in ob["out"]), "closing": ob["closing"],
+           "tap": [hashlib.sha256(repr(msg_key(m, False)).encode()).hexdigest()[:12] for m in ob["tap"]],
+           "pongs": sorted(m["token"].hex() for m in ob["out"] if m["code"] == rc.PONG),
+           "answered": {str(tag): (outcomes[tag]["outcome"], hashlib.sha256(repr(msg_key(outcomes[tag]["response"], False)).encode()).hexdigest()[:12]
+                                   if outcomes[tag].get("response") else None) for tag in sorted(answered) if tag in outcomes}}
+    return {"obs": obs, "sn": sn, "kinds": [f["k"] for s_ in steps for f in s_["frames"]], "end": O.end}
+
+
+def rec_twice(outcomes):
+    return any(r["done"] > 1 for r in outcomes.values())
+
+
+# ------------------------------------------------------------------ workload A: real client(s) <-> real server
+
+
+def run_a(sim, scn, chunk, wid, nworld):
+    import aiocoap
+    from aiocoap import error
+
+    loop = sim.loop
+    fault = scn.get("fault") or None
+    sn = SimStreamNet(sim, prefix=wid + ":")
+    loop.streamnet = sn
+    sn.policy_for = policy_fn(chunk, fault)
+    if fault and fault["kind"] == "refuse":
+        sn.connect_fault = lambda index, h, port: "refuse" if index == fault.get("index", 0) else None
+    ip = "fd00:%d::1" % nworld
+    handler_log = []
+    stap = []
+    ctaps = []
+    outcomes = {}
+    site = make_site(sim, handler_log)
+    nclients = scn.get("nclients", 1)
+    clients = []
+
+    async def setup():
+        srv = await aiocoap.Context.create_server_context(site, bind=(ip, 5683), transports=["tcpserver"], loggername="coap-server")
+        order_tcp_pools(srv)
+        install_tap(srv, stap, sim)
+        for i in range(nclients):
+            c = await aiocoap.Context.create_client_context(transports=["tcpclient"], loggername="coap")
+            t = []
+            install_tap(c, t, sim)
+            ctaps.append(t)
+            clients.append(c)
+        return srv
+
+    srv = loop.run_until_complete(setup())
+    tis = [[ri.token_interface for ri in c.request_interfaces] for c in clients]
+
+    def source_ip(proto):
+        owner = getattr(proto, "_ctx", None)
+        for i, lst in enumerate(tis):
+            if any(owner is ti for ti in lst):
+                return "fd00:%d::%d" % (nworld, 2 + i)
+        return None
+
+    sn.source_ip_of = source_ip
+    t0 = loop.now
+    uri = "coap+tcp://[%s]" % ip
+    ops = {op["tag"]: op for op in scn["ops"]}
+    times = sorted(op["t"] for op in scn["ops"])
+    if any(times[i] == times[i + 1] for i in range(len(times) - 1)):
+        sim.probe("concurrent")
+    for op in scn["ops"]:
+        loop.at(t0 + op["t"], start_request, sim, clients[op["client"] % nclients], a_request_msg(op), uri, outcomes, op["tag"])
+    sim.run()
+    clean = fault is None
+    viol = lambda kind, detail: sim.violation(kind, dict(detail, world=wid, workload="A"))
+    handler_by_tag = {}
+    for h in handler_log:
+        handler_by_tag.setdefault(tag_of(h["m"]), []).append(h["m"])
+    stap_msgs = [e["m"] for e in stap]
+    ctap_msgs = [e["m"] for t in ctaps for e in t]
+    used_s = [False] * len(stap_msgs)
+    used_c = [False] * len(ctap_msgs)
+    for conn in sn.conns:
+        frames = {}
+        for d in ("c2s", "s2c"):
+            fr, rest = decoded(conn.pipe(d).stream)
+            frames[d] = fr
+            bad = [f for f in fr if f[2] is None]
+            if bad or rest:
+                viol("C15/output-not-decodable", {"conn": conn.name, "dir": d, "error": bad[0][3] if bad else "trailing bytes",
+                                                  "rest": bytes(rest[:24]).hex()})
+            len_probes(sim, [f for f in fr if f[2] is not None])
+        tok2tag = {}
+        # requests on the wire are what the application handed over
+        for (a, b, m, e, raw0) in frames["c2s"]:
+            if m is None:
+                continue
+            if m["code"] in (rc.CSM, rc.RELEASE, rc.PONG):
+                continue
+            tag = tag_of(m)
+            if m["code"] == rc.ABORT or m["code"] >> 5 != 0 or tag not in ops:
+                if not (m["code"] == rc.ABORT and not clean):
+                    viol("C15/unexpected-abort" if m["code"] == rc.ABORT else "C15/unexpected-output", {"conn": conn.name, "dir": "c2s", "written": brief(m)})
+                continue
+            tok2tag[m["token"]] = tag
+            want = a_request_msg(ops[tag])
+            if msg_key(m, False) != msg_key(want, False):
+                viol("C15/sent-message-differs", {"tag": tag, "written": brief(m), "given": brief(want)})
+        for (a, b, m, e, raw0) in frames["s2c"]:
+            if m is None or m["code"] in (rc.CSM, rc.RELEASE, rc.PONG):
+                continue
+            tag = tok2tag.get(m["token"])
+            if m["code"] >> 5 not in (2, 4, 5) or tag is None:
+                if not (m["code"] == rc.ABORT and not clean):
+                    viol("C15/unexpected-abort" if m["code"] == rc.ABORT else "C15/unexpected-output", {"conn": conn.name, "dir": "s2c", "written": brief(m)})
+                continue
+            want = planned_response(a_request_msg(ops[tag]))
+            if msg_key(m, False) != msg_key(want, False):
+                viol("C15/sent-message-differs", {"tag": tag, "written": brief(m), "given": brief(want), "side": "server"})
+        # the receiver hands on exactly the frames that arrived, in order
+        for d, tapm, used, who in (("c2s", stap_msgs, used_s, "server"), ("s2c", ctap_msgs, used_c, "client")):
+            pipe = conn.pipe(d)
+            arrived = [m for (a, b, m, e, raw0) in frames[d] if m is not None and b <= pipe.delivered and m["code"] >> 5 != 7]
+            keyset = [msg_key(m) for m in arrived]
+            got = []
+            for i, m in enumerate(tapm):
+                if not used[i] and msg_key(m) in keyset and (tok2tag.get(m["token"]) is not None):
+                    # attribute by content: tag (request) or token->tag (response) belongs to this connection
+                    if (d == "c2s" and tok2tag.get(m["token"]) == tag_of(m)) or d == "s2c":
+                        used[i] = True
+                        got.append(m)
+            if [msg_key(m) for m in got] != keyset:
+                dv, _ = compare_seq(arrived, got)
+                for kind, detail in dv or [("C15/dispatch-order", {})]:
+                    viol(kind, dict(detail, conn=conn.name, receiver=who))
+    for used, tapm, who in ((used_s, stap_msgs, "server"), (used_c, ctap_msgs, "client")):
+        for i, m in enumerate(tapm):
+            if not used[i]:
+                viol("C15/empty-message-dispatched" if m["code"] == 0 else "C15/unexpected-dispatch", {"dispatched": brief(m), "receiver": who})
+    # application level
+    for tag, op in ops.items():
+        want_req = strip_path(a_request_msg(op))
+        seen = handler_by_tag.get(tag, [])
+        rec = outcomes.get(tag)
+        if len(seen) > 1:
+            viol("C15/handler-invocations", {"tag": tag, "seen": len(seen), "expected": 1})
+        if seen and msg_key(seen[0], False) != msg_key(want_req, False):
+            viol("C15/handler-saw-different-message", {"tag": tag, "sent": brief(want_req), "seen": brief(seen[0])})
+        if rec is None:
+            continue
+        if rec["done"] > 1:
+            viol("C15/request-completed-twice", {"tag": tag})
+        want = planned_response(a_request_msg(op))
+        if rec["outcome"] == "response":
+            if msg_key(rec["response"], False) != msg_key(want, False):
+                viol("C15/application-response-differs", {"tag": tag, "got": brief(rec["response"]), "sent": brief(want)})
+        elif clean:
+            viol("C15/request-not-completed", {"tag": tag, "outcome": rec["outcome"], "exception": repr(rec.get("exception"))[:160],
+                                               "handler_invoked": bool(seen)})
+        elif rec["outcome"] == "error" and not isinstance(rec["exception"], error.NetworkError):
+            sim.anomaly("request-failed-with-non-network-error", repr(rec["exception"]))
+    if len(sn.conns) > nclients:
+        sim.probe("parallel_connections")
+    sim.log("app", "a-outcome", wid, len(stap_msgs), len(ctap_msgs), len(sn.conns))
+    shutdown_ctx(sim, clients + [srv])
+    obs = {"req": {str(tag): [hashlib.sha256(repr(msg_key(m, False)).encode()).hexdigest()[:12] for m in handler_by_tag.get(tag, [])]
+                   for tag in sorted(ops)},
+           "out": {str(tag): (outcomes[tag]["outcome"], hashlib.sha256(repr(msg_key(outcomes[tag]["response"], False)).encode()).hexdigest()[:12]
+                              if outcomes[tag].get("response") else None) for tag in sorted(outcomes)}}
+    return {"obs": obs, "sn": sn, "kinds": [(o["code"], min(o["len"], 70000) // 300, min(o["r"], 70000) // 300) for o in scn["ops"]],
+            "end": "fault" if fault else "open"}
 
 
 # ------------------------------------------------------------------ the run
